@@ -28,6 +28,8 @@ pub struct CaseOut {
     pub inner: u64,
     /// distinct non-trivial inner items (hashes); merged by the parent
     pub inner_hashes: Vec<u64>,
+    /// summed counters over inner evaluations
+    pub counters: std::collections::BTreeMap<String, u64>,
 }
 
 impl CaseOut {
@@ -41,6 +43,7 @@ impl CaseOut {
             "nontrivial": self.nontrivial,
             "sample": self.sample,
             "inner": self.inner,
+            "ctr": self.counters,
             "ih": self.inner_hashes.iter().map(|h| format!("{:x}", h)).collect::<Vec<_>>(),
         })
     }
@@ -73,7 +76,7 @@ impl Ctx {
         } else {
             if self.out.fails.len() < 8 {
                 let mut m: String = msg.into();
-                if m.len() > 1500 {
+                if m.len() > 1500 && std::env::var("VERIF_FULLMSG").is_err() {
                     let mut cut = 1500;
                     while !m.is_char_boundary(cut) {
                         cut -= 1;
@@ -91,6 +94,14 @@ impl Ctx {
     }
     pub fn label(&mut self, l: impl Into<String>) {
         self.out.labels.insert(l.into());
+    }
+    pub fn count(&mut self, c: &str) {
+        *self.out.counters.entry(c.to_string()).or_insert(0) += 1;
+    }
+    pub fn count_if(&mut self, cond: bool, c: &str) {
+        if cond {
+            self.count(c);
+        }
     }
     pub fn label_if(&mut self, c: bool, l: &str) {
         if c {
